@@ -84,7 +84,8 @@ def main():
         if run_all:
             props = [c["property_id"] for c in json.load(open(os.path.join(V, "MANIFEST.json")))["checks"]]
             props = [prop] + [p for p in props if p != prop]
-        env = dict(ENV, VERIF_REPO=m)
+        outdir = os.path.join(SCRATCH, "mutout-" + name)
+        env = dict(ENV, VERIF_REPO=m, VERIF_OUTDIR=outdir)
         checks = {}
         for p in props:
             for tier in (["quick", "thorough"] if (thorough and p == prop) else ["quick"]):
@@ -102,6 +103,7 @@ def main():
     finally:
         shutil.rmtree(m, ignore_errors=True)
         shutil.rmtree(clean, ignore_errors=True)
+        shutil.rmtree(os.path.join(SCRATCH, "mutout-" + name), ignore_errors=True)
     return finish(d, res)
 
 
